@@ -58,16 +58,50 @@ package inference
 
 //@ -- site / fullTrigger are used as functions of their arguments (they read the pass and the position cache,
 //@ -- which the engine never writes); their bodies are the subject of C15, not of C05.
+//@ method go/types.Object Exported fn
+//@ method go/types.Object Name fn
+//@ method go/types.Object Pkg fn
+//@ method go/types.Object Pos fn
+//@ method go.uber.org/nilaway/annotation.Key Object fn
+//@ method go.uber.org/nilaway/annotation.Key String fn
+
+//@ -- C15: the object path of an object is a function of the object alone (whatever the cache holds):
+//@ -- "" for unexported non-type objects, the name for package-level objects, else the encoder's answer.
+//@ define (pkgLevel o) (and (not (= (mcall Pkg o) nil)) (= (call |(*go/types.Scope).Lookup| (call |(*go/types.Package).Scope| (mcall Pkg o)) (mcall Name o)) o))
+//@ define (opathOf o) (ite (and (not (mcall Exported o)) (not (is o *types.TypeName))) ""
+//@    (ite (pkgLevel o) (mcall Name o) (ite (encOK o) (encPath o) "")))
+//@ define (pathCacheOK p) (forall ((o types.Object)) (=> (mapin p.objPathCache o) (= (mapget p.objPathCache o) (opathOf o))))
+
+//@ func (*primitivizer).objectPath
+//@ prop C15 C03
+//@ requires (and (not (= p nil)) (pathCacheOK p))
+//@ modifies (map p.objPathCache)
+//@ ensures identity-is-a-function-of-the-object (= result (opathOf obj))
+//@ ensures cache-stays-consistent (pathCacheOK p)
+
+//@ -- C15/C10/C03: the site of a key: every component is determined by the key (and the deep flag); for objects of
+//@ -- other packages the position recorded in the dependency's facts wins over the importer's own view.
 //@ func (*primitivizer).site
+//@ prop C15 C10 C03
 //@ pure
-//@ nobody
+//@ requires (and (not (= p nil)) (pathCacheOK p))
+//@ modifies (map p.objPathCache)
+//@ ensures cache-stays-consistent (pathCacheOK p)
+//@ ensures repr-is-the-key-string (= result.Repr (mcall String key))
+//@ ensures deep-flag-kept (= result.IsDeep isDeep)
+//@ ensures exported-iff-object-exported (= result.Exported (mcall Exported (mcall Object key)))
+//@ ensures object-path-of-the-object (= result.ObjectPath (opathOf (mcall Object key)))
+//@ ensures package-path (= result.PkgPath (ite (= (mcall Pkg (mcall Object key)) nil) "" (pkgpath (mcall Pkg (mcall Object key)))))
+//@ ensures upstream-position-from-facts (let ((o (mcall Object key)) (k (strcat (strcat result.PkgPath ".") result.ObjectPath)))
+//@    (=> (and (not (= (mcall Pkg o) p.pass.Pkg)) (mapin p.upstreamObjPositions k) (> (. (mapget p.upstreamObjPositions k) Line) 0))
+//@        (= result.Position (mapget p.upstreamObjPositions k))))
 //@ func (*primitivizer).fullTrigger
 //@ pure
 //@ nobody
 
 //@ -- implOf: an expression of the type of the per-site implication lists (used only to name their heaps in frames)
 //@ define (implOf i) (. (undet (imVal i (zero primitiveSite))) Implicates)
-//@ define (engOK e) (and (not (= e nil)) (imOK e.inferredMap) (not (isnil e.diagnosticEngine)) (not (= e.primitive nil)))
+//@ define (engOK e) (and (not (= e nil)) (imOK e.inferredMap) (not (isnil e.diagnosticEngine)) (not (= e.primitive nil)) (pathCacheOK e.primitive))
 //@ define (verdict x) (ite (ebVal x) 2 3)
 //@ -- a determined site is never overwritten or dropped (also the engine half of C10)
 //@ define (determinedKept e) (forall ((t primitiveSite)) (=> (old (>= (det e.inferredMap t) 2))
@@ -86,7 +120,7 @@ package inference
 //@ func (*Engine).observeSiteExplanation
 //@ prop C05 C10
 //@ requires (and (engOK e) (ebKnown siteExplained))
-//@ modifies (obj e.inferredMap.mapping) (map e.inferredMap.mapping.inner) (elems e.inferredMap.mapping.Pairs) (obj (omPair e.inferredMap.mapping 0)) (obj (implOf e.inferredMap)) (map (. (implOf e.inferredMap) inner)) (elems (. (implOf e.inferredMap) Pairs)) (obj (omPair (implOf e.inferredMap) 0))
+//@ modifies (map e.primitive.objPathCache) (obj e.inferredMap.mapping) (map e.inferredMap.mapping.inner) (elems e.inferredMap.mapping.Pairs) (obj (omPair e.inferredMap.mapping 0)) (obj (implOf e.inferredMap)) (map (. (implOf e.inferredMap) inner)) (elems (. (implOf e.inferredMap) Pairs)) (obj (omPair (implOf e.inferredMap) 0))
 //@ ensures ok-after (and (engOK e) (sameEngine e))
 //@ ensures determined-kept (determinedKept e)
 //@ ensures site-determined (>= (det e.inferredMap site) 2)
@@ -104,7 +138,7 @@ package inference
 //@ func (*Engine).storeDeterminedAndActivateControlledTriggers
 //@ prop C05 C10
 //@ requires (and (engOK e) (ebKnown siteExplained) (<= (det e.inferredMap site) 1))
-//@ modifies (obj e.inferredMap.mapping) (map e.inferredMap.mapping.inner) (elems e.inferredMap.mapping.Pairs) (obj (omPair e.inferredMap.mapping 0)) (obj (implOf e.inferredMap)) (map (. (implOf e.inferredMap) inner)) (elems (. (implOf e.inferredMap) Pairs)) (obj (omPair (implOf e.inferredMap) 0))
+//@ modifies (map e.primitive.objPathCache) (obj e.inferredMap.mapping) (map e.inferredMap.mapping.inner) (elems e.inferredMap.mapping.Pairs) (obj (omPair e.inferredMap.mapping 0)) (obj (implOf e.inferredMap)) (map (. (implOf e.inferredMap) inner)) (elems (. (implOf e.inferredMap) Pairs)) (obj (omPair (implOf e.inferredMap) 0))
 //@ ensures ok-after (and (engOK e) (sameEngine e))
 //@ ensures determined-kept (determinedKept e)
 //@ ensures site-determined (and (= (det e.inferredMap site) (verdict siteExplained)) (= (detBool (imVal e.inferredMap site)) siteExplained))
@@ -112,7 +146,7 @@ package inference
 //@ func (*Engine).activateControlledTriggers
 //@ prop C05 C10
 //@ requires (and (engOK e) (ebKnown siteExplained))
-//@ modifies (obj e.inferredMap.mapping) (map e.inferredMap.mapping.inner) (elems e.inferredMap.mapping.Pairs) (obj (omPair e.inferredMap.mapping 0)) (obj (implOf e.inferredMap)) (map (. (implOf e.inferredMap) inner)) (elems (. (implOf e.inferredMap) Pairs)) (obj (omPair (implOf e.inferredMap) 0))
+//@ modifies (map e.primitive.objPathCache) (obj e.inferredMap.mapping) (map e.inferredMap.mapping.inner) (elems e.inferredMap.mapping.Pairs) (obj (omPair e.inferredMap.mapping 0)) (obj (implOf e.inferredMap)) (map (. (implOf e.inferredMap) inner)) (elems (. (implOf e.inferredMap) Pairs)) (obj (omPair (implOf e.inferredMap) 0))
 //@ ensures ok-after (and (engOK e) (sameEngine e))
 //@ ensures determined-kept (determinedKept e)
 //@ loop 0 invariant inv (and (engOK e) (sameEngine e) (determinedKept e))
@@ -127,7 +161,7 @@ package inference
 //@ func (*Engine).buildFromSingleFullTrigger
 //@ prop C05 C10
 //@ requires (engOK e)
-//@ modifies (obj e.inferredMap.mapping) (map e.inferredMap.mapping.inner) (elems e.inferredMap.mapping.Pairs) (obj (omPair e.inferredMap.mapping 0)) (obj (implOf e.inferredMap)) (map (. (implOf e.inferredMap) inner)) (elems (. (implOf e.inferredMap) Pairs)) (obj (omPair (implOf e.inferredMap) 0))
+//@ modifies (map e.primitive.objPathCache) (obj e.inferredMap.mapping) (map e.inferredMap.mapping.inner) (elems e.inferredMap.mapping.Pairs) (obj (omPair e.inferredMap.mapping 0)) (obj (implOf e.inferredMap)) (map (. (implOf e.inferredMap) inner)) (elems (. (implOf e.inferredMap) Pairs)) (obj (omPair (implOf e.inferredMap) 0))
 //@ ensures ok-after (and (engOK e) (sameEngine e))
 //@ ensures determined-kept (determinedKept e)
 //@ ensures always-always-is-a-conflict (=> (and (= (pKind trigger) annotation.Always) (= (cKind trigger) annotation.Always))
@@ -153,7 +187,7 @@ package inference
 //@ func (*Engine).observeImplication
 //@ prop C05
 //@ requires (engOK e)
-//@ modifies (obj e.inferredMap.mapping) (map e.inferredMap.mapping.inner) (elems e.inferredMap.mapping.Pairs) (obj (omPair e.inferredMap.mapping 0)) (obj (implOf e.inferredMap)) (map (. (implOf e.inferredMap) inner)) (elems (. (implOf e.inferredMap) Pairs)) (obj (omPair (implOf e.inferredMap) 0))
+//@ modifies (map e.primitive.objPathCache) (obj e.inferredMap.mapping) (map e.inferredMap.mapping.inner) (elems e.inferredMap.mapping.Pairs) (obj (omPair e.inferredMap.mapping 0)) (obj (implOf e.inferredMap)) (map (. (implOf e.inferredMap) inner)) (elems (. (implOf e.inferredMap) Pairs)) (obj (omPair (implOf e.inferredMap) 0))
 //@ ensures ok-after (and (engOK e) (sameEngine e))
 //@ ensures determined-kept (determinedKept e)
 //@ ensures nilable-producer-propagates-forward (=> (old (= (det e.inferredMap producerSite) 2))
@@ -235,7 +269,7 @@ package inference
 //@ -- markReachesExported: the backward walk. Every site it newly visits has all its visitable implicants visited
 //@ -- (so the visited set is closed under Implicants), it only ever adds marks, and only to visitable sites.
 //@ func (*InferredMap).chooseSitesToExport$2
-//@ prop C06
+//@ prop C06 C03 C01
 //@ requires (and (imOK i) (threeMaps toExport reachesExported reachableFromExported) (promotedOK toExport reachesExported reachableFromExported))
 //@ modifies (map toExport) (obj i.mapping) (map i.mapping.inner)
 //@ ensures graph-untouched (and (heap-unchanged (obj i.mapping)) (heap-unchanged (map i.mapping.inner)))
@@ -256,7 +290,7 @@ package inference
 //@    (forall ((s primitiveSite)) (=> (and (mtrue toExport s) (not (old (mtrue toExport s)))) (mtrue reachableFromExported s))))
 
 //@ func (*InferredMap).chooseSitesToExport$1
-//@ prop C06
+//@ prop C06 C03 C01
 //@ requires (and (imOK i) (threeMaps toExport reachesExported reachableFromExported) (promotedOK toExport reachesExported reachableFromExported))
 //@ modifies (map toExport) (obj i.mapping) (map i.mapping.inner)
 //@ ensures graph-untouched (and (heap-unchanged (obj i.mapping)) (heap-unchanged (map i.mapping.inner)))
@@ -275,3 +309,10 @@ package inference
 //@    (forall ((s primitiveSite)) (=> (and (fvis toExport reachesExported reachableFromExported s) (not (old (fvis toExport reachesExported reachableFromExported s))) (not (= s site)))
 //@        (and (visitable i s) (fclosed i toExport reachesExported reachableFromExported s))))
 //@    (forall ((s primitiveSite)) (=> (and (mtrue toExport s) (not (old (mtrue toExport s)))) (mtrue reachesExported s))))
+
+//@ -- C18/C15: positions inside site identities carry the cwd-relative file name of the unadjusted position
+//@ func (*primitivizer).toPosition
+//@ prop C18 C15
+//@ ensures relativised-exactly-once (let ((raw (call |(*go/token.FileSet).PositionFor| p.pass.Fset pos false)))
+//@    (and (= result.Filename (call |go.uber.org/nilaway/util/tokenhelper.RelToCwd| (. raw Filename)))
+//@         (= result.Offset (. raw Offset)) (= result.Line (. raw Line)) (= result.Column (. raw Column))))
